@@ -72,6 +72,21 @@ Theorem late_event_ignored : ∀ w n q p o oun fl, WInv w → w_queue w !! n = S
 Proof. exact late_event_ignored_l. Qed.
 Print Assumptions late_event_ignored.
 
+(** remark: the premise [pod_key p = pod_key q] cannot be dropped.  A pod of the same namespace and name but
+    another owner (here: a bare pod web-0 replaced by a statefulset pod web-0) has another key; the late
+    delete event of the earlier pod then rightly releases the earlier pod's own IP (10.100.0.2), so the
+    tables change, while the live pod's IP (10.100.0.3) is untouched *)
+Theorem late_event_other_key :
+  let w := prun (world0 false nodes1) h_other_key in
+  let o := PEvent 0 (orc None None [ip2]) [] no_faults in
+  WInv w ∧ (pstep w o).2 = ROk ∧
+  ∃ q p, w_queue w !! 0%nat = Some q ∧ w_pods w !! pk q = Some p ∧ live_bound p ∧ pd_ips p = [ip3] ∧
+         pod_key p ≠ pod_key q ∧ w_ipam (pstep w o).1 ≠ w_ipam w ∧
+         is_Some (i_alloc (w_ipam w) !! ip2) ∧ i_alloc (w_ipam (pstep w o).1) !! ip2 = None ∧
+         i_alloc (w_ipam (pstep w o).1) !! ip3 = i_alloc (w_ipam w) !! ip3.
+Proof. exact late_event_other_key_releases. Qed.
+Print Assumptions late_event_other_key.
+
 (** non-vacuity: a concrete well-formed history (one pool 10.100.0.2~10.100.0.9, statefulset pod ns1/web-0
     created, seen by the informer, filtered and bound on node1) whose final world has a live bound pod,
     holding 10.100.0.2 under the key "sts_ns1_web_web-0" for its UID *)
